@@ -21,6 +21,10 @@ Definition item : ty :=
                           ("Note", TPtr t_string); ("Age", t_int32)]).
 Definition mid : ty := TNamed "Mid" (TStruct [("Inner", window); ("PW", TPtr window); ("N", t_int32)]).
 Definition pflat : ty := TNamed "PF" (TStruct [("A", TPtr t_int32); ("P", TPtr plain); ("N", t_int32)]).   (* pointers only: no string, bytes or collection *)
+(* a chain of named structs reached through pointers and collections: 14 type-constructor levels from the root to Leaf's fields *)
+Definition deep3 : ty := TNamed "D3" (TStruct [("D", TSlice (TPtr leaf)); ("N", t_int32)]).
+Definition deep2 : ty := TNamed "D2" (TStruct [("C", TMap t_string (TPtr deep3)); ("S", t_string)]).
+Definition deep1 : ty := TNamed "D1" (TStruct [("B", TPtr (TSlice (TPtr deep2)))]).
 Definition kind : ty := TNamed "Kind" t_int32.            (* a named scalar *)
 Definition label : ty := TNamed "Label" t_string.         (* a named string scalar *)
 
@@ -150,7 +154,9 @@ Definition multi : list ty :=
    (* slices of structs that hold a collection but no string or bytes (the has-bytes / has-collection flags differ) *)
    TStruct [("Ws", TSlice window); ("PWs", TPtr (TSlice window)); ("NW", TNamed "Wins" (TSlice window)); ("WPs", TSlice (TPtr window))];
    (* slices of structs whose only indirections are pointers *)
-   TStruct [("Fs", TSlice pflat); ("FPs", TSlice (TPtr pflat)); ("NF", TNamed "PFs" (TSlice pflat)); ("One", pflat)]].
+   TStruct [("Fs", TSlice pflat); ("FPs", TSlice (TPtr pflat)); ("NF", TNamed "PFs" (TSlice pflat)); ("One", pflat)];
+   (* deep nesting: a parser that stops descending after some number of levels loses the inner fields *)
+   TStruct [("A", TPtr deep1); ("Z", t_int32)]].
 
 Definition rep_shapes : list ty :=
   dedup_ty (shapes1 rep_skinds ++ shapes2 [SString; SInt KInt32] [SInt KInt32; SString]).
